@@ -647,6 +647,9 @@ def run(ctx):
     _reuse(ctx, lambda c: _c14.run(c, shared=False), ("C14.flow",), "C11file",
            "stale-flow rule shared with C14: resume_from_file() continues the checkpointed population with the flow stored next to it; if a refit flow was never "
            "written, log_q, the temperature schedule and every later population differ from the uninterrupted run")
+    from . import c04 as _c04
+    _reuse(ctx, _c04.run, ("C04.wire",), "C11wire", "wiring rule shared with C04: resume_from_file() rebuilds the transforms from a configuration whose mappings come back key-sorted; bounds taken in "
+           "mapping order are then attached to the wrong parameters and the resumed run evaluates another proposal")
     # ---- a run resumed from a finished checkpoint does not iterate again
     if lpr is not None:
         guard_names = [n for n in walk_no_nested(sample.node) if isinstance(n, ast.If) and loop_node in n.body]
@@ -714,6 +717,21 @@ def run(ctx):
             todo.extend(m for m, lab in g.pred[n] if lab not in ("exc", "back"))
         return seen
 
+    # a checkpoint call in a handler / finally of a try that *encloses* the loop is reached from every statement of every iteration that can raise:
+    # temperature, counter and history of the iteration in progress may be written while the population is still the one from before the step
+    if _mc is not None:
+        for tr_ in walk_no_nested(sample.node):
+            if not isinstance(tr_, ast.Try) or not any(loop_node is x_ for b_ in tr_.body for x_ in ast.walk(b_)):
+                continue
+            for blk_ in [h_.body for h_ in tr_.handlers] + [tr_.finalbody]:
+                for st_ in blk_:
+                    for c_ in ast.walk(st_):
+                        if isinstance(c_, ast.Call) and isinstance(c_.func, ast.Name) and c_.func.id == _mc.name:
+                            ctx.refute("C11.cut", sample.ident, loc_of(sample, c_),
+                                       f"the checkpoint call at line {c_.lineno} sits in a handler / finally around the whole loop: it is reached when any statement of an iteration raises "
+                                       "(an interrupt during the mutation step, say), after the temperature, the counter and the history entries of that iteration were written but before "
+                                       "the population was resampled and mutated -- the last checkpoint in the file then describes no state the run was ever in, and resuming from it skips a step",
+                                       disc="enclosing-handler")
     if not cps:
         ctx.unknown("C11.cut", sample.ident, loc_of(sample, loop_node), "no checkpoint call found in the loop body")
     for i, cp in enumerate(cps):
@@ -1012,6 +1030,9 @@ MUTANTS += [
 ]
 MUTANTS += [
     M("flow written to the checkpoint file once per context", _A, "if self.flow is not None:\n                    # Always store", "if self.flow is not None and not saved_flow:\n                    # Always store", "C11file.flow"),
+]
+MUTANTS += [
+    M("bounds stacked in mapping order", "src/aspire/transforms.py", "[self.prior_bounds[p][0] for p in parameters]", "[v[0] for v in self.prior_bounds.values()]", "C11wire.wire"),
 ]
 NEUTRALS = [
     M("payload metadata defaults to an empty dict that is copied before use", "src/aspire/samplers/base.py", "meta: dict | None = None,\n    ) -> dict:", "meta: dict = {},\n    ) -> dict:",
